@@ -143,8 +143,11 @@ type WV struct {
 	Pico  bool   `json:"pico,omitempty"`   // ... and source picoseconds
 }
 
-// slowArmed makes the value callback of "slow" nodes take its time (only while an appnotify op is under way)
-var slowArmed int32
+// slowArmed makes the next call of a "slow" node's value callback block until the harness releases it (appnotify /
+// apprelease ops); tablesBusy is set while that call holds the monitored item tables: they must not be read then.
+var slowArmed, tablesBusy int32
+var slowEntered, slowRelease, slowDone chan struct{}
+var lastTables tablesJ
 
 // Op is one request of a history. Tok selects the authentication token: "null", "bogus", "s<k>" (token of the
 // k-th session created in this history), "raw:<n>" (numeric id n).
@@ -478,6 +481,15 @@ type itemJ struct {
 }
 
 func (s *sut) tables() tablesJ {
+	if atomic.LoadInt32(&tablesBusy) != 0 {
+		return lastTables // the item tables are held by the blocked change notification
+	}
+	t := s.readTables()
+	lastTables = t
+	return t
+}
+
+func (s *sut) readTables() tablesJ {
 	var t tablesJ
 	t.Sessions = s.srv.VerifSessions()
 	t.Subs, t.LastSub = s.srv.VerifSubs()
@@ -786,15 +798,37 @@ func (r *runner) exec(op Op) (map[string]any, Outcome) {
 		}
 		return ev, Outcome{K: "activate"}
 	case "appnotify":
-		// the application reports a change of a node whose value callback is slow: the monitored item tables stay locked meanwhile
+		// the application reports a change of a node whose value callback does not return until the harness says so: the
+		// change notification in progress holds the monitored item tables (MonitoredItemService.Mu) meanwhile
 		ev["nomodel"] = true
 		n := parseNID(op.Reads[0].Node)
+		slowEntered, slowRelease, slowDone = make(chan struct{}), make(chan struct{}), make(chan struct{})
 		atomic.StoreInt32(&slowArmed, 1)
-		go func() {
+		go func(done chan struct{}) {
 			r.s.srv.ChangeNotification(n)
+			close(done)
+		}(slowDone)
+		select {
+		case <-slowEntered:
+			atomic.StoreInt32(&tablesBusy, 1)
+			ev["established"] = true
+		case <-time.After(3 * time.Second):
+			// could not establish the blocked state (no item on the node?): inconclusive, carry on unblocked
 			atomic.StoreInt32(&slowArmed, 0)
-		}()
-		time.Sleep(40 * time.Millisecond)
+			close(slowRelease)
+			ev["established"] = false
+		}
+		return ev, Outcome{K: "other"}
+	case "apprelease":
+		ev["nomodel"] = true
+		if atomic.LoadInt32(&tablesBusy) != 0 {
+			close(slowRelease)
+			select {
+			case <-slowDone:
+			case <-time.After(3 * time.Second):
+			}
+			atomic.StoreInt32(&tablesBusy, 0)
+		}
 		return ev, Outcome{K: "other"}
 	case "closesession":
 		_, err := c.call(&ua.CloseSessionRequest{DeleteSubscriptions: true}, tok, to)
@@ -991,8 +1025,9 @@ func buildNode(ns uint16, nj NodeJ) *server.Node {
 	case "slow":
 		dv := mkDV(*nj.ValDV)
 		vf = func() *ua.DataValue {
-			if atomic.LoadInt32(&slowArmed) != 0 {
-				time.Sleep(500 * time.Millisecond)
+			if atomic.CompareAndSwapInt32(&slowArmed, 1, 0) { // only the call the harness armed
+				close(slowEntered)
+				<-slowRelease
 			}
 			return dv
 		}
@@ -1120,6 +1155,9 @@ func (s *sut) runHistory(h History, dumpAll bool) (dead bool) {
 		}
 		_ = before
 		line := map[string]any{"t": "ev", "hist": h.ID, "i": i, "ev": ev, "out": o, "internal": internal, "tables": s.tables()}
+		if atomic.LoadInt32(&tablesBusy) != 0 {
+			line["stale"] = true // the tables shown are the ones read before the item tables were blocked
+		}
 		if !dumpAll {
 			var cur []NodeJ
 			for _, nj := range h.Nodes {
